@@ -1,7 +1,8 @@
 #!/venv/bin/python
 """Developer tool: confirm a seeded change and run the checks against it.
 
-usage: evalmut.py <name> [--props C01,C07,...] [--tier quick] [--seed N]
+usage: evalmut.py <name> [--props C01,C07,...] [--tier quick] [--seed N] [--no-checks]
+       (--no-checks: confirm and keep only; matrix.py --only <name> then runs the checks in scratch copies)
 
  1. in a scratch worktree of /repo HEAD: the demo passes; with the patch applied the
     unedited test suite still passes and the demo fails
@@ -73,7 +74,7 @@ def main():
 
     # 2. the checks against it
     results = {}
-    if out.get("patch_applies"):
+    if out.get("patch_applies") and "--no-checks" not in args:
         rc, o = sh("git -C /repo status --short")
         assert not o.strip(), "/repo is not clean: " + o
         rc, o = sh(f"git -C /repo apply {diff}")
